@@ -8,6 +8,7 @@
   atomic steps. The same `step` function replays the traces of the real code (family `join`).
 -/
 import MayVerif.Proof.Runtime.Join.Step
+import MayVerif.Proof.Runtime.Life.Step
 namespace MayVerif.Join
 
 /-- **join()/wait() return only after the coroutine has finished**: when a `wait()` or `join()` call of any joiner has
@@ -135,3 +136,139 @@ example : (run (init 2) [(.j 0, .callWait), (.j 0, .go), (.j 0, .go), (.fin, .re
     (.j 0, .go)]).pcs 0 = .wtake .wait 0 := by decide
 
 end MayVerif.Join
+
+/-
+  Part 2: the life cycle, `Model/Runtime/Life.lean`. All theorems are about `run (init nw ws next) sched`: every
+  number `nw > 0` of workers, work stealing on or off, every finite schedule of any number of threads (workers,
+  spawning threads, the timer thread) and coroutines: spawns from threads and from coroutines (`spawn`, `spawn_local`,
+  `Builder::id`), `schedule` / `schedule_global` with the round-robin counter, `collect_global`, `local.pop`,
+  `steal_into`, yields, suspensions on event sources and wake-ups from any thread. The same `step` function replays
+  the traces of the real scheduler (family `life`).
+-/
+namespace MayVerif.Life
+
+/-- **The coroutine object is a linear token**: in every reachable state the queues hold no duplicates and, for every
+    coroutine `c`, being in global queue `k` / in local queue `k` / in the hand of thread `t` (mid-operation) /
+    on the stack of thread `t` (its body runs there) is *equivalent* to `loc c` naming exactly that place. `loc` is a
+    function, so `c` is in exactly one place: never in two queues, never queued while it runs, never copied. -/
+theorem co_token_linear (nw : Nat) (ws : Bool) (next : Option Nat) (hnw : 0 < nw) (sched : List (Thr × Env)) (c : Cid) :
+    (∀ k, ((run (init nw ws next) sched).gq k).Nodup ∧ ((run (init nw ws next) sched).lq k).Nodup) ∧
+    (∀ k, c ∈ (run (init nw ws next) sched).gq k ↔ (run (init nw ws next) sched).loc c = .gq k) ∧
+    (∀ k, c ∈ (run (init nw ws next) sched).lq k ↔ (run (init nw ws next) sched).loc c = .lq k) ∧
+    (∀ t, holdsOp ((run (init nw ws next) sched).op t) c ↔ (run (init nw ws next) sched).loc c = .hand t) ∧
+    (∀ t, Frame.body c ∈ (run (init nw ws next) sched).stk t ↔ (run (init nw ws next) sched).loc c = .running t) := by
+  have h := inv_reach nw ws next hnw sched
+  generalize run (init nw ws next) sched = s at *
+  exact ⟨fun k => ⟨h.g2 k, h.l2 k⟩, fun k => ⟨h.g1 k c, fun hl => (h.g3 k c hl).1⟩, fun k => ⟨h.l1 k c, fun hl => (h.l3 k c hl).1⟩,
+    fun t => ⟨h.h1 t c, h.h2 t c⟩, fun t => ⟨h.r1 t c, h.r2 t c⟩⟩
+
+/-- **A resume is performed by the thread that holds the token**: `run_coroutine(c)` on thread `t` is possible only
+    when `t` has taken `c` out of a queue / a slot or has just created it (`loc c = hand t`), and it moves the token to
+    `running t`. -/
+theorem resume_by_holder (nw : Nat) (ws : Bool) (next : Option Nat) (hnw : 0 < nw) (sched : List (Thr × Env)) (t : Thr) (s' : St)
+    (hs : step (run (init nw ws next) sched) t .resume = some s') :
+    ∃ c, (run (init nw ws next) sched).loc c = .hand t ∧ s'.loc c = .running t ∧ s'.stk t = .body c :: (run (init nw ws next) sched).stk t := by
+  have h := inv_reach nw ws next hnw sched
+  generalize run (init nw ws next) sched = s at *
+  simp only [step] at hs
+  split at hs <;> try contradiction
+  all_goals
+    rename_i c hop
+    simp only [Option.some.injEq] at hs
+    subst hs
+    exact ⟨c, h.h1 t c (by simp [hop, holdsOp]), by simp [upd], by simp [upd]⟩
+
+/-- **Never on two threads at once, every body started at most once**: the body of `c` is on the stack of at most one
+    thread and at most once there; its segments alternate strictly (`resumes = suspends`, plus one while it runs), so
+    a segment never starts before the previous one has ended; and the body is entered at its beginning at most once. -/
+theorem never_two_workers (nw : Nat) (ws : Bool) (next : Option Nat) (hnw : 0 < nw) (sched : List (Thr × Env)) (c : Cid) :
+    (∀ t u, Frame.body c ∈ (run (init nw ws next) sched).stk t → Frame.body c ∈ (run (init nw ws next) sched).stk u → t = u) ∧
+    (∀ t, okStk ((run (init nw ws next) sched).stk t)) ∧
+    (run (init nw ws next) sched).resumes c =
+      (run (init nw ws next) sched).suspends c + (if isRunning ((run (init nw ws next) sched).loc c) then 1 else 0) ∧
+    (run (init nw ws next) sched).starts c ≤ 1 := by
+  have h := inv_reach nw ws next hnw sched
+  generalize run (init nw ws next) sched = s at *
+  refine ⟨fun t u ht hu => ?_, h.r3, h.c1 c, ?_⟩
+  · have := h.r1 t c ht; have := h.r1 u c hu; simp_all
+  · rw [h.c2 c]; split <;> omega
+
+/-- all threads are outside the runtime or idle in `epoll.wait`, nobody holds a coroutine, and no worker finds work -/
+def Quiescent (s : St) : Prop :=
+  (∀ t, s.op t = .none ∧ s.stk t = []) ∧ (∀ t, step s t .popL = none) ∧ (∀ t n, step s t (.collect n) = none)
+
+/-- **Every coroutine runs to its end (no-hang form)**: in a quiescent state every run queue is empty and every
+    spawned, unfinished coroutine is suspended on an event source (`slot`): none is stranded in a queue nobody looks
+    at, none is lost. Under a fair scheduler (a worker in `epoll.wait` always has an enabled exit: its time-out) this
+    is exactly "a runnable coroutine is eventually run".
+    Hypothesis of this layer (DESIGN App. F): the queues are their atomic specifications; below it, a stealer that
+    over-claimed in `may_queue::spmc` waits for the owner's next pushes (`spmc_claim_completes`, C04). -/
+theorem co_runs_to_end (nw : Nat) (ws : Bool) (next : Option Nat) (hnw : 0 < nw) (sched : List (Thr × Env))
+    (hq : Quiescent (run (init nw ws next) sched)) :
+    (∀ k, (run (init nw ws next) sched).gq k = [] ∧ (run (init nw ws next) sched).lq k = []) ∧
+    (∀ c, (run (init nw ws next) sched).loc c = .unborn ∨ (run (init nw ws next) sched).loc c = .slot ∨
+          (run (init nw ws next) sched).loc c = .done) := by
+  have h := inv_reach nw ws next hnw sched
+  have hnw' : (run (init nw ws next) sched).nw = (run (init nw ws next) sched).nw := rfl
+  generalize run (init nw ws next) sched = s at *
+  obtain ⟨hidle, hpop, hcol⟩ := hq
+  have hl : ∀ k, s.lq k = [] := by
+    intro k
+    by_cases hk : k < s.nw
+    · have hp := hpop k
+      have ⟨ho, hs⟩ := hidle k
+      simp only [step, hk, hs, ho, and_self, if_true] at hp
+      cases hlq : s.lq k with
+      | nil => rfl
+      | cons c r => simp [hlq] at hp
+    · cases hlq : s.lq k with
+      | nil => rfl
+      | cons c r =>
+        have := (h.l3 k c (h.l1 k c (by simp [hlq]))).2
+        omega
+  have hg : ∀ k, s.gq k = [] := by
+    intro k
+    by_cases hk : k < s.nw
+    · have hp := hcol k (s.gq k).length
+      have ⟨ho, hs⟩ := hidle k
+      cases hgq : s.gq k with
+      | nil => rfl
+      | cons c r => simp [step, hk, hs, ho, hgq] at hp
+    · cases hgq : s.gq k with
+      | nil => rfl
+      | cons c r =>
+        have := (h.g3 k c (h.g1 k c (by simp [hgq]))).2
+        omega
+  refine ⟨fun k => ⟨hg k, hl k⟩, fun c => ?_⟩
+  cases hloc : s.loc c with
+  | unborn => simp
+  | slot => simp
+  | done => simp
+  | hand t => have := h.h2 t c hloc; simp [(hidle t).1, holdsOp] at this
+  | gq k => have := (h.g3 k c hloc).1; simp [hg k] at this
+  | lq k => have := (h.l3 k c hloc).1; simp [hl k] at this
+  | running t => have := h.r2 t c hloc; simp [(hidle t).2] at this
+
+/-- without the feature `work_steal` no task is ever stolen (the second instance of the worker loop) -/
+theorem no_steal_without_feature (s : St) (t v n : Nat) (h : s.ws = false) : step s t (.steal v n) = none := by
+  simp [step, h]
+
+-- non-vacuity: thread 2 (not a worker) spawns c0: round robin to global 0, worker 0 collects it, runs it, the body
+-- yields once (re-queued on local 0), runs again and finishes; the final state is quiescent with everything empty
+def demo : List (Thr × Env) :=
+  [(2, .spawn 0), (2, .schedG), (2, .fadd 0), (2, .push), (0, .collect 1), (0, .push), (0, .popL), (0, .resume),
+   (0, .suspend), (0, .schedL), (0, .push), (0, .leave), (0, .popL), (0, .resume), (0, .finish), (0, .leave)]
+example : (run (init 2 true (some 0)) demo).loc 0 = .done ∧ (run (init 2 true (some 0)) demo).resumes 0 = 2 ∧
+    (run (init 2 true (some 0)) demo).starts 0 = 1 := by decide
+example : (run (init 2 true (some 0)) (demo.take 8)).loc 0 = .running 0 ∧ (run (init 2 true (some 0)) (demo.take 4)).gq 0 = [0] := by decide
+-- a body that suspends on an event source (park): the token rests in the slot; a wake-up from thread 3 re-queues it globally
+example : (run (init 2 true (some 0)) (demo.take 9 ++ [(0, .store), (0, .leave)])).loc 0 = .slot := by decide
+example : (run (init 2 true (some 0)) (demo.take 9 ++ [(0, .store), (0, .leave), (3, .wake 0), (3, .schedG), (3, .fadd 1),
+    (3, .push)])).gq 1 = [0] := by decide
+-- work stealing: worker 0 holds [c0, c1] in its local queue; worker 1 steals both, runs the newest (c1), re-queues c0
+example : (run (init 2 true (some 0)) [(2, .spawn 0), (2, .schedG), (2, .fadd 0), (2, .push), (2, .spawn 1), (2, .schedId), (2, .qid 0),
+    (2, .push), (0, .collect 2), (0, .push), (0, .push), (1, .steal 0 1)]).lq 1 = [0] ∧
+    (run (init 2 true (some 0)) [(2, .spawn 0), (2, .schedG), (2, .fadd 0), (2, .push), (2, .spawn 1), (2, .schedId), (2, .qid 0),
+    (2, .push), (0, .collect 2), (0, .push), (0, .push), (1, .steal 0 1)]).op 1 = .hold 1 := by decide
+
+end MayVerif.Life
